@@ -1,5 +1,6 @@
 """C07, byte level: structure-aware mutation of valid PFCP messages against the real server (validation, not proof)."""
 import json
+import os
 import random
 
 from lib import common
@@ -153,6 +154,17 @@ def systematic(hexmsg):
                     hdr = bytearray(b[:hl])
                     hdr[2:4] = (hl - 4 + len(body)).to_bytes(2, "big")
                     out.append((bytes(hdr) + body).hex())
+    # inner length / count fields of leaf IEs (octets 2..7): boundary values, IE length unchanged
+    for k in range(nleaf):
+        for j in range(2, 8):
+            for val in (0xff, 0x80, 0x00, 0x01):
+                tr = tree(b[hl:])
+                n = [n for _, n in nodes(tr, []) if not isinstance(n[1], list)][k]
+                raw = n[1]
+                if len(raw) <= j or raw[j] == val:
+                    continue
+                n[1] = raw[:j] + bytes([val]) + raw[j + 1:]
+                out.append((b[:hl] + untree(tr)).hex())
     return out
 
 
@@ -200,20 +212,18 @@ def run(ctx, harness, n_cases, per_case):
     for k in range(0, len(sysd), 400):
         cases.append({"driver": "gtp5g", "datagrams": sysd[k:k + 400]})
         cases.append({"driver": "modeldp", "datagrams": sysd[k:k + 400]})
-    # datagrams carrying the signature of the known finding are replayed in cases of their own, so that the first
-    # crash does not hide what follows it in the stream
-    known = []
-    for c in cases:
-        if c["driver"] == "gtp5g":
-            known += [d for d in c["datagrams"] if has_ohc_spare_bits(d)]
-            c["datagrams"] = [d for d in c["datagrams"] if not has_ohc_spare_bits(d)]
-    def crashy(d):          # the variant with three octets after the address is the one that faults
+    # regression corpus first: datagrams that once took the UPF down (each in a case of its own, real driver), plus
+    # the Outer-Header-Creation datagrams with spare description bits of this run (fixed: 242a7e8)
+    corpus = []
+    cp = os.path.join(common.VERIF, "corpus", "C07-fuzz", "datagrams.json")
+    if os.path.exists(cp):
+        corpus = json.load(open(cp))["datagrams"]
+    def crashy(d):          # the variant with three octets after the address is the one that faulted
         b = bytes.fromhex(d)
         i = b.find(b"\x00\x54")
         return 0 if (i >= 0 and int.from_bytes(b[i + 2:i + 4], "big") >= 13) else 1
-    known.sort(key=crashy)
-    for d in known[:3]:
-        cases.append({"driver": "gtp5g", "datagrams": [d], "known_sig": "ohc-spare-bits"})
+    ohc = sorted([d for c in cases if c["driver"] == "gtp5g" for d in c["datagrams"] if has_ohc_spare_bits(d)], key=crashy)[:3]
+    cases = [{"driver": "gtp5g", "datagrams": [d], "corpus": True} for d in corpus + ohc] + cases
     res, log = common.run_harness(ctx, harness, "fuzz", [{"driver": c["driver"], "datagrams": c["datagrams"]} for c in cases], timeout=3000)
     if res is None:
         return {"error": "fuzz harness failed: " + log[-1200:]}
@@ -231,14 +241,10 @@ def phase(ctx, info, coverage):
     coverage["fuzz_datagrams"] = sent
     coverage["fuzz_cases"] = len(r["cases"])
     coverage["evaluations"] = coverage.get("evaluations", 0) + sent
-    known = common.known_findings("C07")
     reported = 0
     for c, o in zip(r["cases"], r["results"]):
         if o["fault_index"] >= 0:
             d = c["datagrams"][o["fault_index"]]
-            if c["driver"] == "gtp5g" and has_ohc_spare_bits(d) and any(k["sig"] == "ohc-spare-bits" for k in known):
-                ctx.known("sig=ohc-spare-bits " + [k for k in known if k["sig"] == "ohc-spare-bits"][0]["what"])
-                continue
             if reported < 2:
                 reported += 1
                 ctx.violation({"property": "C07", "what": "the UPF went down (%s) after datagram %d of this sequence" % (o["fault"], o["fault_index"]),
